@@ -180,6 +180,8 @@ type zzCfg struct {
 	s, cs  uint // success threshold s of capacity cs (0 = none)
 	period time.Duration
 	timed  bool
+	rate   uint // failure rate threshold in percent (0 = count based), with execution threshold e
+	e      uint
 }
 
 var zzCfgs = []zzCfg{
@@ -189,6 +191,16 @@ var zzCfgs = []zzCfg{
 	{f: 3, c: 3, s: 1, cs: 1},
 	{f: 2, c: 2, period: 1000, timed: true},
 	{f: 1, c: 2, s: 2, cs: 2},
+	{f: 1, c: 1, rate: 50, e: 2, period: 1000, timed: true},
+}
+
+// pct is the documented rounding of a percentage: round half away from zero of 100*a/n (exact integer
+// arithmetic; with the window sizes reachable in bounded histories no exact .5 tie occurs).
+func zzPct(a, n uint) uint {
+	if n == 0 {
+		return 0
+	}
+	return (200*a + n) / (2 * n)
 }
 
 type zzRes struct {
@@ -258,6 +270,9 @@ func (r *zzRef) hc() uint {
 	if r.cfg.cs != 0 {
 		return r.cfg.cs
 	}
+	if r.cfg.rate != 0 {
+		return r.cfg.e
+	}
 	if r.cfg.timed {
 		return r.cfg.f // failureExecutionThreshold == f for WithFailureThresholdPeriod
 	}
@@ -294,7 +309,13 @@ func (r *zzRef) record(ok bool, t int64) {
 		if r.cfg.timed {
 			e = r.cfg.f
 		}
-		if n >= e {
+		if r.cfg.rate != 0 {
+			if n >= r.cfg.e {
+				if zzPct(fl, n) >= r.cfg.rate {
+					r.transition(OpenState, t)
+				}
+			}
+		} else if n >= e {
 			if fl >= r.cfg.f {
 				r.transition(OpenState, t)
 			}
@@ -304,6 +325,11 @@ func (r *zzRef) record(ok bool, t int64) {
 		if r.cfg.s != 0 {
 			closeIt = su >= r.cfg.s
 			openIt = fl > r.cfg.cs-r.cfg.s
+		} else if r.cfg.rate != 0 {
+			if n >= r.cfg.e {
+				openIt = zzPct(fl, n) >= r.cfg.rate
+				closeIt = zzPct(su, n) > 100-r.cfg.rate
+			}
 		} else {
 			openIt = fl >= r.cfg.f
 			closeIt = su > r.cfg.c-r.cfg.f
@@ -370,7 +396,9 @@ func ZZ_H03g_History() {
 	var evExecs []uint
 	var specific []State
 	b := Builder[int]().WithDelay(delay)
-	if cfg.timed {
+	if cfg.rate != 0 {
+		b = b.WithFailureRateThreshold(cfg.rate, cfg.e, cfg.period)
+	} else if cfg.timed {
 		b = b.WithFailureThresholdPeriod(cfg.f, cfg.period)
 	} else {
 		b = b.WithFailureThresholdRatio(cfg.f, cfg.c)
@@ -431,6 +459,8 @@ func ZZ_H03g_History() {
 		zzvrt.Assert(m.Executions() == n, "history: Metrics.Executions agrees")
 		zzvrt.Assert(m.Failures() == fl, "history: Metrics.Failures agrees")
 		zzvrt.Assert(m.Successes() == su, "history: Metrics.Successes agrees")
+		zzvrt.Assert(m.FailureRate() == zzPct(fl, n), "history: Metrics.FailureRate is the rounded percentage")
+		zzvrt.Assert(m.SuccessRate() == zzPct(su, n), "history: Metrics.SuccessRate is the rounded percentage")
 	}
 	zzvrt.Assert(len(evNew) == len(ref.evNew), "history: number of state-change events")
 	zzvrt.Assert(len(specific) == len(evNew), "history: one specific listener call per generic one")
